@@ -132,3 +132,16 @@ macro_rules! th_harness {
         fn $name() $body
     };
 }
+
+/// allocator stubs + S7 (capacity hints dropped)
+#[macro_export]
+macro_rules! harness_nocap {
+    ($name:ident, $unwind:expr, $body:block) => {
+        #[kani::proof]
+        #[kani::unwind($unwind)]
+        #[kani::stub(std::hash::RandomState::new, $crate::stubs::fixed_keys)]
+        #[kani::stub(std::vec::Vec::reserve, $crate::stubs::reserve_stub)]
+        #[kani::stub(std::vec::Vec::with_capacity, $crate::stubs::with_capacity_none)]
+        fn $name() $body
+    };
+}
